@@ -285,6 +285,34 @@ Proof.
   destruct (default_idx _ _ _ _ Hs) as [I1 I2]. eapply cat_name_match; eauto.
 Qed.
 
+
+(* ---------------------------------------------------------------- random splits *)
+Definition ref_random k (d : rdec) : router := RRandom (ref_cats k (rd_cats d)) (rd_result d).
+Definition comp_random (r : crandom) : router := RRandom (map render_cat (rr_cats r)) (render_result (rr_result r)).
+
+Lemma to_node_rand k n d : rn_dec n = Some d -> rd_random d = true ->
+  n_exits (to_node k n) = ref_exits k (rd_cats d) /\ n_router (to_node k n) = Some (ref_random k d).
+Proof. intros H1 H2. unfold to_node. rewrite H1. cbn. unfold all_cats. rewrite H2. split; reflexivity. Qed.
+
+Lemma render_rand nd r : cn_body nd = BRandom r ->
+  n_exits (render_node nd) = map (fun c => render_exit (cc_exit c)) (rr_cats r) /\ n_router (render_node nd) = Some (comp_random r).
+Proof. intros H. unfold render_node. rewrite H. split; reflexivity. Qed.
+
+Lemma bucket_name_match phi uu ix c : bucket_sim phi uu ix c -> smatch (name_sexp (cname_str (fst (snd ix)))) (name_sexp (cc_name c)) = true.
+Proof.
+  intros [Hn _]. destruct (fst (snd ix)) as [s|]; cbn in *.
+  - destruct Hn as [-> _]. apply smatch_refl.
+  - reflexivity.
+Qed.
+
+Lemma rand_sig_match phi uu k d r : rand_sim phi uu d r -> smatch (router_sig (ref_random k d)) (router_sig (comp_random r)) = true.
+Proof.
+  intros [H1 H2 H3 H4]. unfold ref_random, comp_random, router_sig.
+  apply smatch_list. constructor; [reflexivity|]. constructor; [rewrite H2; apply smatch_refl|]. constructor; [|constructor].
+  apply smatch_list. unfold ref_cats. rewrite !map_map. cbn [c_name render_cat]. apply Forall2_map2.
+  eapply Forall2_impl; [|exact H3]. intros ix c Hb. eapply bucket_name_match; eauto.
+Qed.
+
 (* ---------------------------------------------------------------- the two flows at the end of the run *)
 Section Final.
 Variable fresh : nat -> id.
@@ -433,6 +461,49 @@ Qed.
 Lemma StOK_cat_xid k1 x cls r : nth_error (cs_nodes sc) k1 = Some x -> cn_body x = BSwitch cls r -> NoDup (map cat_xid (sw_all_cats r)).
 Proof. intros H1 H2. destruct (StOK_switch fresh GP _ _ _ _ _ Hst H1 H2) as [[_ Hnd _] _ _]. exact Hnd. Qed.
 
+
+Lemma rand_branches_rel k n x d r :
+  rn_dec n = Some d -> cn_body x = BRandom r -> rand_sim phi (cuu sc) d r -> NoDup (map cat_xid (rr_cats r)) ->
+  Forall2 (fun a b => fst a = fst b /\ Rel (snd a) (snd b))
+          (router_branches R (to_node k n) (ref_random k d)) (router_branches F (render_node x) (comp_random r)).
+Proof.
+  intros Hdec Hb Hs Hx. destruct (to_node_rand k n d Hdec (rs_random _ _ _ _ Hs)) as [He _].
+  destruct (render_rand x r Hb) as [Hce _].
+  unfold ref_random, comp_random, router_branches.
+  assert (G : forall i0 l l', Forall2 (fun (a : nat * category) (b : ccat) => Rel (Flow.cat_dest R (to_node k n) (ref_cats k (rd_cats d)) (c_uuid (snd a)))
+                                                                    (Flow.cat_dest F (render_node x) (map render_cat (rr_cats r)) (cc_uuid b))) (number_from i0 l) l' ->
+            Forall2 (fun a b => fst a = fst b /\ Rel (snd a) (snd b))
+                    (map (fun ic : nat * category => (b_bucket (fst ic), Flow.cat_dest R (to_node k n) (ref_cats k (rd_cats d)) (c_uuid (snd ic)))) (number_from i0 l))
+                    (map (fun ic : nat * category => (b_bucket (fst ic), Flow.cat_dest F (render_node x) (map render_cat (rr_cats r)) (c_uuid (snd ic)))) (number_from i0 (map render_cat l')))).
+  { intros i0 l. revert i0. induction l as [|a l IH]; intros i0 l' H; cbn [number_from] in H; inversion H as [|? b ? l1 Hab Hl]; subst; cbn [number_from map]; constructor; [|apply IH, Hl].
+    cbn [fst snd]. split; [reflexivity|exact Hab]. }
+  apply G. unfold ref_cats. clear G.
+  (* position by position *)
+  pose proof (rs_cats _ _ _ _ Hs) as H3.
+  assert (Hpos : forall i a c, nth_error (rd_cats d) i = Some a -> nth_error (rr_cats r) i = Some c ->
+              Rel (Flow.cat_dest R (to_node k n) (ref_cats k (rd_cats d)) (cid k i)) (Flow.cat_dest F (render_node x) (map render_cat (rr_cats r)) (cc_uuid c))).
+  { intros i a c Ha Hc. unfold Flow.cat_dest.
+    rewrite (ref_cat_find k _ i a Ha). cbn [c_exit]. rewrite He, (ref_exit_find k _ i a Ha). cbn [e_dest].
+    rewrite (comp_cat_find _ i c (rs_uuids _ _ _ _ Hs) Hc). cbn [c_exit render_cat]. rewrite Hce.
+    change (x_uuid (cc_exit c)) with (cat_xid c). rewrite (comp_exit_find _ i c Hx Hc). cbn [e_dest render_exit].
+    apply dest_rel. assert (Hn : nth_error (number_from 0 (rd_cats d)) i = Some (i, a)) by (rewrite number_from_nth, Ha; reflexivity).
+    destruct (Forall2_nth _ _ _ _ _ H3 Hn) as (c' & Hc' & Hac). assert (c' = c) by congruence. subst c'. apply Hac. }
+  assert (G2 : forall i0 (l : list (cname * dest)) l', (forall j a c, nth_error l j = Some a -> nth_error l' j = Some c ->
+                   Rel (Flow.cat_dest R (to_node k n) (ref_cats k (rd_cats d)) (cid k (i0 + j))) (Flow.cat_dest F (render_node x) (map render_cat (rr_cats r)) (cc_uuid c))) ->
+               length l = length l' ->
+               Forall2 (fun (a : nat * category) (b : ccat) => Rel (Flow.cat_dest R (to_node k n) (ref_cats k (rd_cats d)) (c_uuid (snd a)))
+                                                                    (Flow.cat_dest F (render_node x) (map render_cat (rr_cats r)) (cc_uuid b)))
+                       (number_from i0 (map (fun ic : nat * (cname * dest) => mkCat (cid k (fst ic)) (cname_str (fst (snd ic))) (xid k (fst ic))) (number_from i0 l))) l').
+  { intros i0 l. revert i0. induction l as [|a l IH]; intros i0 [|c l'] Hj Hlen; cbn in Hlen; try discriminate; cbn [number_from map]; constructor.
+    - cbn [snd c_uuid fst]. specialize (Hj 0 a c eq_refl eq_refl). rewrite Nat.add_0_r in Hj. exact Hj.
+    - apply IH; [|lia]. intros j a' c' Ha' Hc'. specialize (Hj (S j) a' c' Ha' Hc'). replace (S i0 + j) with (i0 + S j) by lia. exact Hj. }
+  apply G2; [intros j a c Ha Hc; apply (Hpos j a c Ha Hc)|].
+  rewrite <- (Forall2_length' _ _ _ H3). symmetry. clear. generalize 0. induction (rd_cats d) as [|a l IH]; intros i; cbn; [reflexivity|]. rewrite IH. reflexivity.
+Qed.
+
+Lemma StOK_rand_xid k1 x r : nth_error (cs_nodes sc) k1 = Some x -> cn_body x = BRandom r -> NoDup (map cat_xid (rr_cats r)).
+Proof. intros H1 H2. destruct (StOK_random fresh GP _ _ _ _ Hst H1 H2) as [_ Hnd _]. exact Hnd. Qed.
+
 (* ---------------------------------------------------------------- the weak simulations *)
 Definition lmf (a b : sexp) : bool := smatch a b.
 Definition lmb (a b : sexp) : bool := smatch b a.
@@ -471,7 +542,7 @@ Proof.
                       | None => match n_exits (render_node nd) with [e] => KTau (dest_state F (e_dest e)) | _ => KBad end
                       | Some r => KDec (router_sig r) (router_branches F (render_node nd) r) end)
         by (apply (lts_tail F p _ _ Hcn); rewrite render_node_actions; exact Hca).
-      destruct Hns as [n nd e Hdec Hb _ Hcont|n nd cls r d Hdec Hb _ Hds Hsh|n nd e nr r d Hdec Hb _ Hdest Hnes Hbr Har Hds Hpl].
+      destruct Hns as [n nd e Hdec Hb _ Hcont|n nd cls r d Hdec Hb _ Hds Hsh|n nd r d Hdec Hb _ Hrs|n nd e nr r d Hdec Hb _ Hdest Hnes Hbr Har Hds Hpl].
       * destruct (to_node_basic k n Hdec) as [E1 E2]. rewrite E1, E2. destruct (render_basic nd e Hb) as [E3 E4]. rewrite E3, E4 in Hct.
         exists (dest_state F (e_dest (render_exit e))). split; [eapply taus_step; [exact Hct|apply taus_refl]|]. cbn. apply dest_rel, Hcont.
       * destruct (to_node_dec k n d Hdec (ds_random _ _ _ _ Hds)) as [E1 E2]. rewrite E2.
@@ -479,6 +550,12 @@ Proof.
         exists (p, length (rn_actions n)), (router_sig (comp_router r)), (router_branches F (render_node nd) (comp_router r)).
         split; [apply taus_refl|]. split; [exact Hct|]. split; [apply sig_match with (phi := phi) (uu := cuu sc); exact Hds|].
         apply branches_fwd. apply (branches_rel k n nd cls d r Hdec Hb Hds). eapply (StOK_cat_xid (fst c) nd cls r); eauto.
+      * (* a random split *)
+        destruct (to_node_rand k n d Hdec (rs_random _ _ _ _ Hrs)) as [E1 E2]. rewrite E2.
+        destruct (render_rand nd r Hb) as [E3 E4]. rewrite E4 in Hct.
+        exists (p, length (rn_actions n)), (router_sig (comp_random r)), (router_branches F (render_node nd) (comp_random r)).
+        split; [apply taus_refl|]. split; [exact Hct|]. split; [apply rand_sig_match with (phi := phi) (uu := cuu sc); exact Hrs|].
+        apply branches_fwd. apply (rand_branches_rel k n nd d r Hdec Hb Hrs). eapply (StOK_rand_xid (fst c) nd r); eauto.
       * (* the implicit router: one silent step on the compiled side *)
         destruct (to_node_dec k n d Hdec (ds_random _ _ _ _ Hds)) as [E1 E2]. rewrite E2.
         destruct (render_basic nd e Hb) as [E3 E4]. rewrite E3, E4 in Hct.
@@ -499,7 +576,7 @@ Proof.
     destruct (cluster_view k n _ Hk Hc) as (nd & o & Hcl & Hns).
     unfold cluster_nodes in Hcl. cbn in Hcl. destruct (nth_error (cs_nodes sc) k1) as [y|] eqn:Ey; [|discriminate].
     destruct (nth_error (cs_nodes sc) j) as [nr|] eqn:Enr; [|discriminate]. injection Hcl as <- <-.
-    inversion Hns as [| |? ? e nr0 r d Hdec Hb _ Hdest Hnes Hbr Har Hds Hpl]; subst.
+    inversion Hns as [| | |? ? e nr0 r d Hdec Hb _ Hdest Hnes Hbr Har Hds Hpl]; subst.
     pose proof (ref_nth sr k n Hk) as Hrn. pose proof (comp_nth p j nr Hp Enr) as Hcnr.
     rewrite (lts_tail R k (to_node k n) _ Hrn) by (rewrite ref_actions_nth; assert (E : nth_error (rn_actions n) (length (rn_actions n)) = None) by (apply nth_error_None; lia); rewrite E; reflexivity).
     destruct (to_node_dec k n d Hdec (ds_random _ _ _ _ Hds)) as [E1 E2]. rewrite E2.
@@ -534,7 +611,7 @@ Proof.
                       | None => match n_exits (to_node k n) with [e] => KTau (dest_state R (e_dest e)) | _ => KBad end
                       | Some r => KDec (router_sig r) (router_branches R (to_node k n) r) end)
         by (apply (lts_tail R k _ _ Hrn); rewrite ref_actions_nth, Epl; reflexivity).
-      destruct Hns as [n nd e Hdec Hb _ Hcont|n nd cls r d Hdec Hb _ Hds Hsh|n nd e nr r d Hdec Hb _ Hdest Hnes Hbr Har Hds Hpl].
+      destruct Hns as [n nd e Hdec Hb _ Hcont|n nd cls r d Hdec Hb _ Hds Hsh|n nd r d Hdec Hb _ Hrs|n nd e nr r d Hdec Hb _ Hdest Hnes Hbr Har Hds Hpl].
       * destruct (to_node_basic k n Hdec) as [E1 E2]. rewrite E1, E2 in Hrt. destruct (render_basic nd e Hb) as [E3 E4]. rewrite E3, E4.
         exists (dest_state R (dest_id (rn_cont n))). split; [eapply taus_step; [exact Hrt|apply taus_refl]|]. cbn. apply dest_rel, Hcont.
       * destruct (to_node_dec k n d Hdec (ds_random _ _ _ _ Hds)) as [E1 E2]. rewrite E2 in Hrt.
@@ -542,6 +619,11 @@ Proof.
         exists (k, length (rn_actions n)), (router_sig (ref_router k d)), (router_branches R (to_node k n) (ref_router k d)).
         split; [apply taus_refl|]. split; [exact Hrt|]. split; [unfold lmb; apply sig_match with (phi := phi) (uu := cuu sc); exact Hds|].
         apply branches_bwd. apply (branches_rel k n nd cls d r Hdec Hb Hds). eapply (StOK_cat_xid (fst c) nd cls r); eauto.
+      * destruct (to_node_rand k n d Hdec (rs_random _ _ _ _ Hrs)) as [E1 E2]. rewrite E2 in Hrt.
+        destruct (render_rand nd r Hb) as [E3 E4]. rewrite E4.
+        exists (k, length (rn_actions n)), (router_sig (ref_random k d)), (router_branches R (to_node k n) (ref_random k d)).
+        split; [apply taus_refl|]. split; [exact Hrt|]. split; [unfold lmb; apply rand_sig_match with (phi := phi) (uu := cuu sc); exact Hrs|].
+        apply branches_bwd. apply (rand_branches_rel k n nd d r Hdec Hb Hrs). eapply (StOK_rand_xid (fst c) nd r); eauto.
       * destruct (render_basic nd e Hb) as [E3 E4]. rewrite E3, E4.
         unfold cluster_nodes in Hcl. rewrite Hnd in Hcl. destruct (snd c) as [j|] eqn:Ej; [|discriminate].
         destruct (nth_error (cs_nodes sc) j) as [nr'|] eqn:Enr; [|discriminate]. injection Hcl as ->.
@@ -553,7 +635,7 @@ Proof.
   - destruct (cluster_view k n _ Hk Hc) as (nd & o & Hcl & Hns).
     unfold cluster_nodes in Hcl. cbn in Hcl. destruct (nth_error (cs_nodes sc) k1) as [y|] eqn:Ey; [|discriminate].
     destruct (nth_error (cs_nodes sc) j) as [nr|] eqn:Enr; [|discriminate]. injection Hcl as <- <-.
-    inversion Hns as [| |? ? e nr0 r d Hdec Hb _ Hdest Hnes Hbr Har Hds Hpl]; subst.
+    inversion Hns as [| | |? ? e nr0 r d Hdec Hb _ Hdest Hnes Hbr Har Hds Hpl]; subst.
     pose proof (ref_nth sr k n Hk) as Hrn. pose proof (comp_nth p j nr Hp Enr) as Hcnr.
     rewrite (lts_tail F p _ 0 Hcnr) by (rewrite render_node_actions, Har; reflexivity).
     destruct (render_switch nr SPlain r Hbr) as [E5 E6]. rewrite E6.
